@@ -380,3 +380,82 @@ _enumerated("verif.output.Output.csv+text#BOUNDED:threshold-like-axes,rows-label
             "axes threshold/obs/fcst x 6 bin-type/threshold lists (ascending, unordered, single, repeated, none given) x 1..2 inputs x csv/text, real _get_x_y with a stub metric: "
             "header and every printed row against the thresholds in the order given and the scores at the format's precision",
             _threshold_tables(), ["verif.output.Output.csv", "verif.output.Output.text", "verif.output.Standard._get_x_y"])
+
+
+# ------------------------------------------------------------------ -hist / -sort: the plotted frequencies and percentiles (recording pyplot stand-in)
+class _RecPyplot(object):
+    def __init__(self):
+        self.lines = []
+
+    def plot(self, x, y, *a, **kw):
+        self.lines.append((list(x), list(y), kw.get("label")))
+
+    def __getattr__(self, name):
+        return lambda *a, **kw: None
+
+
+class _HistData(object):
+    def __init__(self, values, names):
+        self.values, self.names = values, names
+        self.num_inputs = len(values)
+        import verif.variable
+        self.variable = verif.variable.Variable("T", "K")
+
+    def get_scores(self, field, f, axis=None, axis_index=None):
+        return _np.array(self.values[f], float)
+
+    def get_names(self):
+        return list(self.names)
+
+    get_legend = get_names
+
+
+def _hist_sort():
+    from pyvc import engine
+    from .common import BIN_TYPES
+
+    def member(bt, x, t, t2):
+        return {"below": x < t, "below=": x <= t, "above": x > t, "above=": x >= t,
+                "within": t2 is not None and t < x < t2, "=within": t2 is not None and t <= x < t2,
+                "within=": t2 is not None and t < x <= t2, "=within=": t2 is not None and t <= x <= t2}[bt]
+
+    def body():
+        cases = 0
+        values = [[0.0, 1.0, 1.0, 2.0, 2.5, 3.0, -1.0, 0.5], [3.0, 3.0, 0.0, 1.5]]
+        thresholds = [0.0, 1.0, 2.0, 3.0]
+        for bt in BIN_TYPES:
+            two = "within" in bt
+            pl = verif.output.Hist(verif.field.Obs())
+            pl.thresholds, pl.bin_type = thresholds, bt
+            rec = _RecPyplot()
+            cases += 1
+            with engine.patched(verif.output, mpl=rec):
+                pl._plot_core(_HistData(values, ["a", "b"]))
+            ivs = verif.util.get_intervals(bt, thresholds)
+            for f, vals in enumerate(values):
+                counts = []
+                for k in range(len(ivs)):
+                    t, t2 = thresholds[k], (thresholds[k + 1] if two else None)
+                    counts.append(sum(1 for v in vals if member(bt, v, t, t2)))
+                tot = float(sum(counts))
+                want = [100.0 * c / tot for c in counts]
+                if f >= len(rec.lines) or [round(v, 9) for v in rec.lines[f][1]] != [round(v, 9) for v in want] or rec.lines[f][0] != [iv.center for iv in ivs] or rec.lines[f][2] != ["a", "b"][f]:
+                    return cases, {"output": "-hist", "bin_type": bt, "thresholds": thresholds, "values": vals, "plotted": rec.lines[f] if f < len(rec.lines) else None,
+                                   "want-frequencies-in-percent": want}
+        pl = verif.output.Sort(verif.field.Obs())
+        rec = _RecPyplot()
+        cases += 1
+        with engine.patched(verif.output, mpl=rec):
+            pl._plot_core(_HistData(values, ["a", "b"]))
+        for f, vals in enumerate(values):
+            want_x = sorted(vals)
+            want_y = [100.0 * i / (len(vals) - 1) for i in range(len(vals))]
+            if f >= len(rec.lines) or rec.lines[f][0] != want_x or [round(v, 9) for v in rec.lines[f][1]] != [round(v, 9) for v in want_y]:
+                return cases, {"output": "-sort", "values": vals, "plotted": rec.lines[f] if f < len(rec.lines) else None, "want": [want_x, want_y]}
+        return cases, None
+    return body
+
+
+_enumerated("verif.output.Hist+Sort._plot_core#BOUNDED:frequencies-per-documented-event-and-sorted-percentiles", ("C07", "C13"),
+            "all eight bin types on four thresholds with values on the edges, two inputs; -sort on the same values; the arguments of pyplot.plot are recorded",
+            _hist_sort(), ["verif.output.Hist._plot_core", "verif.output.Sort._plot_core"])
